@@ -40,11 +40,16 @@ var events = map[string][]string{
 	"WFCd": {"WFC", "sp"},   // a direct write (PING) toward the client fails
 	"WFCw": {"WFC", "sh:5"}, // a queued frame's write toward the client fails (writer goroutine -> writerErr)
 	"SRw":  {"SR", "cp"},    // reset upstream, then a write toward it
+	"WFCc":  {"WFC", "cd:1:1:100"}, // the FIRST failing write is the credit WINDOW_UPDATE answering a client DATA frame
+	"WFCwd": {"WFC", "sd:1:1:10"},  // ... a queued DATA frame written by the writer goroutine
+	"WFCst": {"WFC", "sst"},        // ... a forwarded SETTINGS
+	"WFCga": {"WFC", "sga"},        // ... a forwarded GOAWAY
+	"RFC":   {"RFC"},               // reads from the client fail, writes toward it keep working
 	"CCSC": {"CC", "SC"},
 	"SCCC": {"SC", "CC"},
 }
 
-var eventOrder = []string{"CC", "SC", "SR", "CE1", "CE2", "CE3", "SE1", "SE2", "SE3", "CL", "WFCd", "WFCw", "SRw", "CCSC", "SCCC"}
+var eventOrder = []string{"CC", "SC", "SR", "CE1", "CE2", "CE3", "SE1", "SE2", "SE3", "CL", "WFCd", "WFCw", "WFCc", "WFCwd", "WFCst", "WFCga", "RFC", "SRw", "CCSC", "SCCC"}
 
 func mk(name string, parts ...[]string) hx.Case {
 	var in []string
@@ -69,7 +74,7 @@ func generate(cfg *hx.Config) []hx.Case {
 			n = 20
 		}
 		for _, ev := range eventOrder {
-			if !cfg.Thorough() && (ev == "CE2" || ev == "SE2" || ev == "SCCC") && st != "idle" {
+			if !cfg.Thorough() && (ev == "CE2" || ev == "SE2" || ev == "SCCC" || ev == "WFCst" || ev == "WFCga" || ev == "RFC") && st != "idle" && st != "mid" {
 				continue // quick: the ReadFrame-error variants only in the idle state
 			}
 			add(mk("e-"+st+"-"+ev, stateScript(st, n), events[ev]), st, ev)
@@ -140,6 +145,34 @@ func generate(cfg *hx.Config) []hx.Case {
 	stalledUp := []string{"hs:65535:2147483647", "sw:0:2147418112", "ch:1", "sh:1", "STS", "cd:1:700:16384"}
 	add(mk("d-creditS-stalled-FR", stalledUp, []string{"sd:1:1:100", "FR"}), "creditS-stalled", "sd,FR")
 	add(mk("d-creditS-stalled-FH-FR", stalledUp, []string{"sd:1:1:100", "FH", "FR"}), "creditS-stalled", "sd,FH,FR")
+	// 4d. protocol errors raised by a stream processor: a scripted factory failing the n-th
+	//     Header / Data / RSTStream / PushPromise call of one direction, and the real gRPC adapter
+	//     given a message flagged compressed that is not gzip
+	type pf struct{ name, conf string; traffic []string }
+	pfs := []pf{
+		{"cH1", "PF:c:H:1", []string{"ch:1"}},
+		{"cH2", "PF:c:H:2", []string{"ch:1", "sh:1", "ch:3"}},
+		{"cD1", "PF:c:D:1", []string{"ch:1", "cd:1:1:100"}},
+		{"cD3", "PF:c:D:3", []string{"ch:1", "sh:1", "cd:1:2:50", "sd:1:1:20", "cd:1:1:50"}},
+		{"cD1empty", "PF:c:D:1", []string{"ch:1", "cd:1:1:0"}}, // empty DATA: no credit write precedes the processor
+		{"cR1", "PF:c:R:1", []string{"ch:1", "cr:1:1"}},
+		{"sH1", "PF:s:H:1", []string{"ch:1", "sh:1"}},
+		{"sD1", "PF:s:D:1", []string{"ch:1", "sh:1", "sd:1:1:100"}},
+		{"sD2", "PF:s:D:2", []string{"ch:1", "sh:1", "sd:1:1:100", "cd:1:1:10", "sd:1:1:100"}},
+		{"sR1", "PF:s:R:1", []string{"ch:1", "sh:1", "sr:1:1"}},
+		{"sP1", "PF:s:P:1", []string{"ch:1", "sh:1", "spp:1:2"}},
+	}
+	for _, p := range pfs {
+		add(mk("f-"+p.name, []string{p.conf, "hs:65535:65535"}, p.traffic), "processor", p.conf)
+	}
+	// the processor error while DATA is blocked behind a zero window / with the other side stalled
+	add(mk("f-cD1-blkC", []string{"PF:c:D:6", "hs:65535:0", "ch:1", "cd:1:5:1", "cd:1:1:9"}), "processor", "PF:c:D:6,blkC")
+	add(mk("f-sD1-stallC", []string{"PF:s:D:1", "hs:65535:65535", "ch:1", "sh:1", "STC", "sh:3", "sd:1:1:100", "WFC"}), "processor", "PF:s:D:1,stalledC")
+	// a factory that never fails must change nothing (control with an ending event)
+	add(mk("f-none-CC", []string{"PF:c:D:99", "hs:65535:65535", "ch:1", "cd:1:2:10", "sh:1", "sd:1:1:10", "CC"}), "processor", "never")
+	add(mk("f-grpc-c-bad", []string{"GRPC", "hs:65535:65535", "chg:1", "cdok:1", "cdbad:1"}), "grpc", "cdbad")
+	add(mk("f-grpc-s-bad", []string{"GRPC", "hs:65535:65535", "chg:1", "cdok:1", "shg:1", "sdok:1", "sdbad:1"}), "grpc", "sdbad")
+	add(mk("f-grpc-ok-SC", []string{"GRPC", "hs:65535:65535", "chg:1", "cdok:1", "shg:1", "sdok:1", "SC"}), "grpc", "SC")
 	// 5. controls: nothing that ends the session has happened, the relay must stay up
 	add(mk("c-idle", stateScript("idle", 0), []string{"cp", "sp"}), "idle", "none")
 	add(mk("c-mid-armed", stateScript("mid", 0), []string{"WFC", "cp"}), "mid", "none(WFC armed, no write toward the client)")
